@@ -42,7 +42,119 @@ func historyFuncs(p *an.Program) (saver, loader *ssa.Function) {
 			}
 		}
 	}
+	// the write step may live in a helper that only the saver calls: the saver is the function that consults the loader
+	if saver != nil && loader != nil {
+		callsLoader := func(fn *ssa.Function) bool {
+			for _, s := range p.CallSites(loader) {
+				if s.Parent() == fn {
+					return true
+				}
+			}
+			return false
+		}
+		if !callsLoader(saver) {
+			for _, s := range p.CallSites(saver) {
+				if up := s.Parent(); callsLoader(up) && calledOnlyFrom(p, saver, up) {
+					saver = up
+					break
+				}
+			}
+		}
+	}
 	return
+}
+
+// histWrite is the write of a reading into the history file as the saver sees it: the WriteAt call itself, or the call
+// of a helper (called only by the saver) that performs it.
+type histWrite struct {
+	at    *ssa.Call     // in the saver
+	inner *ssa.Call     // the WriteAt call
+	infn  *ssa.Function // the function that contains inner
+}
+
+func findHistWrite(p *an.Program, saver *ssa.Function) *histWrite {
+	find := func(fn *ssa.Function) *ssa.Call {
+		for _, b := range fn.Blocks {
+			for _, in := range b.Instrs {
+				if call, ok := in.(*ssa.Call); ok && an.CalleeName(&call.Call) == "(*os.File).WriteAt" {
+					return call
+				}
+			}
+		}
+		return nil
+	}
+	if w := find(saver); w != nil {
+		return &histWrite{w, w, saver}
+	}
+	for _, b := range saver.Blocks {
+		for _, in := range b.Instrs {
+			if call, ok := in.(*ssa.Call); ok {
+				if sc := call.Call.StaticCallee(); sc != nil && sc.Pkg == saver.Pkg && calledOnlyFrom(p, sc, saver) {
+					if w := find(sc); w != nil {
+						return &histWrite{call, w, sc}
+					}
+				}
+			}
+		}
+	}
+	return nil
+}
+
+// term of argument k of the WriteAt call in the saver's vocabulary
+func (hw *histWrite) arg(p *an.Program, saver *ssa.Function, k int) *an.Term {
+	if hw.at == hw.inner {
+		return p.Info(saver).Term(hw.inner.Call.Args[k])
+	}
+	t := p.Info(saver).InstantiateTerm(p.Info(hw.infn).Term(hw.inner.Call.Args[k]), hw.at)
+	if t == nil {
+		return an.ConstTerm("?")
+	}
+	return t
+}
+
+// succeededAt: the facts at instruction `at` of the saver say that the write succeeded.
+func (hw *histWrite) succeededAt(p *an.Program, saver *ssa.Function, at ssa.Instruction) bool {
+	sfi := p.Info(saver)
+	for _, f := range sfi.FactsAt(at) {
+		if f.Neg || f.T.K != an.KBin || f.T.S != "==" {
+			continue
+		}
+		for _, a := range f.T.A {
+			if hw.at == hw.inner {
+				if a.K == an.KExt && a.S == "1" && a.A[0].Val == ssa.Value(hw.inner) {
+					return true
+				}
+			} else if a.Val == ssa.Value(hw.at) {
+				// the helper's error is nil, and the helper returns nil only after a successful WriteAt
+				hfi := p.Info(hw.infn)
+				ok := true
+				for _, b := range hw.infn.Blocks {
+					if len(b.Instrs) == 0 || b == hw.infn.Recover {
+						continue
+					}
+					ret, isRet := b.Instrs[len(b.Instrs)-1].(*ssa.Return)
+					if !isRet || len(ret.Results) == 0 || !isConstTerm(hfi.Term(ret.Results[len(ret.Results)-1]), "nil") {
+						continue
+					}
+					succ := false
+					for _, hf := range hfi.FactsAt(ret) {
+						if !hf.Neg && hf.T.K == an.KBin && hf.T.S == "==" {
+							for _, x := range hf.T.A {
+								if x.K == an.KExt && x.S == "1" && x.A[0].Val == ssa.Value(hw.inner) {
+									succ = true
+								}
+							}
+						}
+					}
+					if !succ {
+						ok = false
+					}
+				}
+				return ok
+			}
+		}
+	}
+	return false
 }
 
 func runC09(c *an.Ctx) {
@@ -60,7 +172,7 @@ func runC09(c *an.Ctx) {
 		for _, op := range p.FileOps(fn) {
 			if op.Kind == "writeat" || op.Kind == "truncate" {
 				n++
-				c.Check(fn == saver, "WHO-MAY", fn, op.Call.Pos(), an.KeyOf(fn, "history-write"), "the history file is written in place only by the history saver", an.FuncName(fn))
+				c.Check(fn == saver || calledOnlyFrom(p, fn, saver), "WHO-MAY", fn, op.Call.Pos(), an.KeyOf(fn, "history-write"), "the history file is written in place only by the history saver (or a helper only it calls)", an.FuncName(fn))
 			}
 			if (op.Kind == "open-rw" || op.Kind == "open-trunc" || op.Kind == "open-append" || op.Kind == "writefile" || op.Kind == "create") && op.File == "history.dat" {
 				n++
@@ -87,12 +199,18 @@ func runC09(c *an.Ctx) {
 	c.Check(okRef, "ADDRESS", saver, write.Pos(), an.KeyOf(saver, "origin-refusal"), "a timeslot before the history origin is refused, not misplaced (origin <= timeslot dominates the write)", "facts "+factList(facts))
 	// data: 4 bytes LE of the value
 	dataOK := false
-	dt := sfi.Term(write.Call.Args[1])
+	hw := findHistWrite(p, saver)
+	wfi := p.Info(hw.infn)
+	dt := wfi.Term(hw.inner.Call.Args[1])
 	if dt.K == an.KSlice && dt.A[0].K == an.KAlloc {
-		for _, b := range saver.Blocks {
+		for _, b := range hw.infn.Blocks {
 			for _, in := range b.Instrs {
 				if call, ok := in.(*ssa.Call); ok && an.CalleeName(&call.Call) == "(encoding/binary.littleEndian).PutUint32" {
-					if sfi.Term(call.Call.Args[2]).Key() == valS.Key() && an.Dominates(call, write) {
+					vt := wfi.Term(call.Call.Args[2])
+					if hw.at != hw.inner {
+						vt = sfi.InstantiateTerm(vt, hw.at)
+					}
+					if vt != nil && vt.Key() == valS.Key() && an.Dominates(call, hw.inner) {
 						dataOK = true
 					}
 				}
@@ -101,7 +219,7 @@ func runC09(c *an.Ctx) {
 	}
 	c.Check(dataOK, "ADDRESS", saver, write.Pos(), an.KeyOf(saver, "data"), "the 4 bytes written are the little-endian encoding of the reading", "data "+short(dt.Key()))
 	// address term: same in saver and loader, and exact on its domain
-	offS := sfi.Term(write.Call.Args[2])
+	offS := hw.arg(p, saver, 2)
 	var read *ssa.Call
 	for _, b := range loader.Blocks {
 		for _, in := range b.Instrs {
@@ -157,12 +275,14 @@ func writeOnce(c *an.Ctx, saver, loader *ssa.Function) (*ssa.Call, an.FactSet, *
 	sfi := c.P.Info(saver)
 	// the write
 	var write *ssa.Call
-	for _, b := range saver.Blocks {
-		for _, in := range b.Instrs {
-			if call, ok := in.(*ssa.Call); ok && an.CalleeName(&call.Call) == "(*os.File).WriteAt" {
-				write = call
-			}
-		}
+	hw := findHistWrite(c.P, saver)
+	if hw != nil {
+		write = hw.at
+		c.Scope(hw.infn)
+	}
+	if write == nil {
+		c.Violated("WRITE-ONCE", saver, saver.Pos(), an.KeyOf(saver, "no-write"), "the history saver does not write the history file", "no WriteAt in the saver or in a helper only it calls")
+		return nil, nil, nil
 	}
 	tsS := sfi.Term(saver.Params[1])
 	valS := sfi.Term(saver.Params[2])
@@ -221,17 +341,7 @@ func writeOnce(c *an.Ctx, saver, loader *ssa.Function) (*ssa.Call, an.FactSet, *
 			if !(write.Block() == b || reachable(write.Block(), b)) {
 				continue
 			}
-			succ := false
-			for _, f := range sfi.FactsAt(ret) {
-				if !f.Neg && f.T.K == an.KBin && f.T.S == "==" {
-					for _, a := range f.T.A {
-						if a.K == an.KExt && a.S == "1" && a.A[0].Val == ssa.Value(write) {
-							succ = true
-						}
-					}
-				}
-			}
-			if !succ {
+			if !hw.succeededAt(c.P, saver, ret) {
 				okW = false
 				where = c.P.Pos(ret.Pos())
 			}
